@@ -11,6 +11,16 @@
 (*             stored run ids = model run + offset, see Search!ShiftDb),   *)
 (*             every step is a find / page walk / facet executed through   *)
 (*             dawgie.db.search() and through the front-end wrappers       *)
+(*   kind "h"  one HISTORY in one process (Search, part c): the steps are   *)
+(*             searches (as in kind "b"; a Find goes through the engine,   *)
+(*             the front end or both: args.via) interleaved with changes   *)
+(*             of the database: Store / Remove (dawgie.db.shelve.remove)   *)
+(*             of entries args.xs, Reopen = DBI().close() + open of        *)
+(*             another database with content args.xs.  The variable cur    *)
+(*             is the MODEL database after the steps so far (HApply);      *)
+(*             every search is judged against cur.  Each step logs the     *)
+(*             real prime table (st.db, names) and the index tables        *)
+(*             (st.tabs) as they are after the step: st.db # cur is DRIFT. *)
 (* Every step is judged by the declarative operators (Den, Match, FindOK,  *)
 (* PagesOK, FacetOK) -> CLAUSE lines; comparison with the transcription    *)
 (* (Scrub, ImplFind, ImplFacet on the logged index tables) -> DRIFT lines. *)
@@ -20,13 +30,18 @@ EXTENDS Search, Json, IOUtils
 
 Traces == ndJsonDeserialize(IOEnv.TRACE_FILE)
 
-VARIABLES tid, l, bad, drift, cnt, nt      \* nt: lines of this trace with a non-trivial (counted) step
-tvars == <<tid, l, bad, drift, cnt, nt>>
+VARIABLES tid, l, bad, drift, cnt, nt,     \* nt: lines of this trace with a non-trivial (counted) step
+          cur,                             \* the model database after line l (constant for kinds a, b)
+          prev                             \* the last find / page walk: its query, |cur| and match set then
+tvars == <<tid, l, bad, drift, cnt, nt, cur, prev>>
 
 Rec(t, i) == Traces[t].steps[i]
 DbOf(t)   == ToSet(Traces[t].db)
-TabsOf(t) == LET x == Traces[t].tabs
-             IN [tg |-> x.tg, tk |-> x.tk, al |-> x.al, sv |-> x.sv, prime |-> ToSet(x.prime)]
+Tabs(x)   == [tg |-> x.tg, tk |-> x.tk, al |-> x.al, sv |-> x.sv, prime |-> ToSet(x.prime)]
+IsHist(t) == Traces[t].kind = "h"
+TabsAt(t, r) == IF IsHist(t) THEN Tabs(r.st.tabs) ELSE Tabs(Traces[t].tabs)
+(* binding of a history step: the real prime table is the model database *)
+Unbound(t, r, db) == IsHist(t) /\ ToSet(r.st.db) # db
 QOf(a)    == [hasrun |-> a.hasrun, run |-> a.run,
               tg |-> ToSet(a.tg), tk |-> ToSet(a.tk), al |-> ToSet(a.al), sv |-> ToSet(a.sv)]
 
@@ -37,10 +52,18 @@ HasRange(q) == q.hasrun /\ \E i \in DOMAIN q.run : q.run[i].k = "r"
 (* counters: <<scrub changed, find non-empty, find by range non-empty,     *)
 (*            find inner window non-empty, walk of >= 2 non-empty pages,   *)
 (*            facet non-empty, find/walk returning run ids of different    *)
-(*            decimal widths (numeric order # order of the strings)>>      *)
-Zero == <<0, 0, 0, 0, 0, 0, 0>>
-Unit(i) == [j \in 1..7 |-> IF j = i THEN 1 ELSE 0]
-Add(x, y) == [j \in 1..7 |-> x[j] + y[j]]
+(*            decimal widths (numeric order # order of the strings),       *)
+(*            find/walk repeating the previous find/walk's query on a      *)
+(*            database with as many primary keys but another match set,    *)
+(*            the same across a close + open of another database>>         *)
+NC == 9
+Zero == [j \in 1..NC |-> 0]
+Unit(i) == [j \in 1..NC |-> IF j = i THEN 1 ELSE 0]
+Add(x, y) == [j \in 1..NC |-> x[j] + y[j]]
+NoPrev == [has |-> FALSE, q |-> Query(Absent, {}, {}, {}, {}), n |-> 0, M |-> {}, reop |-> FALSE]
+Again(pv, q, db, M) ==
+    IF pv.has /\ pv.q = q /\ pv.n = Cardinality(db) /\ pv.M # M
+    THEN Add(Unit(8), IF pv.reop THEN Unit(9) ELSE Zero) ELSE Zero
 MixedWidth(M) == \E x, y \in M : Width(x.run) # Width(y.run)
 
 EvalScrub(r) ==
@@ -52,28 +75,32 @@ EvalScrub(r) ==
      drift |-> ~(r.obs.err = "" /\ r.obs.str = m /\ r.obs.alt = m /\ r.obs.lst = m),
      cnt   |-> IF r.obs.str # e THEN Unit(1) ELSE Zero]
 
-EvalFind(t, r) ==
+EvalFind(t, r, db, pv) ==
     LET q == QOf(r.args.q)
-        M == Match(DbOf(t), q)
+        M == Match(db, q)
         n == Cardinality(M)
         i == r.args.index
         L == r.args.limit
-        m == ImplFind(TabsOf(t), q, i, L)
+        m == ImplFind(TabsAt(t, r), q, i, L)
+        v == r.args.via                       \* which entry points were called: "db", "fe", "both"
     IN
-    [bad   |-> Fail("C17.FindOK",   r.obs.err = ""    /\ FindOK(M, i, L, r.obs.items, r.obs.total))
+    [bad   |-> Fail("C17.FindOK",   v = "fe" \/ (r.obs.err = ""    /\ FindOK(M, i, L, r.obs.items, r.obs.total)))
                \cup
-               Fail("C17.FindOKfe", r.obs.fe_err = "" /\ FindOK(M, i, L, r.obs.fe_items, r.obs.fe_total)),
-     drift |-> ~(r.obs.items = m.items /\ r.obs.total = m.total /\ r.obs.fe_items = m.items /\ r.obs.fe_total = m.total),
-     cnt   |-> Add(IF n > 0 THEN Unit(2) ELSE Zero,
+               Fail("C17.FindOKfe", v = "db" \/ (r.obs.fe_err = "" /\ FindOK(M, i, L, r.obs.fe_items, r.obs.fe_total))),
+     drift |-> \/ ~(/\ v = "fe" \/ (r.obs.items = m.items /\ r.obs.total = m.total)
+                    /\ v = "db" \/ (r.obs.fe_items = m.items /\ r.obs.fe_total = m.total))
+               \/ Unbound(t, r, db),
+     cnt   |-> Add(Again(pv, q, db, M),
+               Add(IF n > 0 THEN Unit(2) ELSE Zero,
                Add(IF n > 0 /\ HasRange(q) THEN Unit(3) ELSE Zero,
                Add(IF i > 0 /\ L # NOLIMIT /\ i < n THEN Unit(4) ELSE Zero,
-                   IF i < n /\ MixedWidth(M) THEN Unit(7) ELSE Zero)))]
+                   IF i < n /\ MixedWidth(M) THEN Unit(7) ELSE Zero))))]
 
-EvalPages(t, r) ==
+EvalPages(t, r, db, pv) ==
     LET q == QOf(r.args.q)
-        M == Match(DbOf(t), q)
+        M == Match(db, q)
         L == r.args.L
-        T == TabsOf(t)
+        T == TabsAt(t, r)
         pks == ImplKeys(T, q)
     IN
     [bad   |-> Fail("C17.Pages", r.obs.err = "" /\ PagesOK(M, L, r.obs.pages))
@@ -82,27 +109,43 @@ EvalPages(t, r) ==
                                   /\ Len(r.obs.totals) = Len(r.obs.pages)
                                   /\ \A p \in DOMAIN r.obs.pages :
                                         FindOK(M, (p - 1) * L, L, r.obs.pages[p], r.obs.totals[p])),
-     drift |-> ~(\A p \in DOMAIN r.obs.pages : r.obs.pages[p] = ImplPage(T, pks, (p - 1) * L, L).items),
-     cnt   |-> Add(IF Cardinality(M) > L THEN Unit(5) ELSE Zero,
-                   IF MixedWidth(M) THEN Unit(7) ELSE Zero)]
+     drift |-> \/ ~(\A p \in DOMAIN r.obs.pages : r.obs.pages[p] = ImplPage(T, pks, (p - 1) * L, L).items)
+               \/ Unbound(t, r, db),
+     cnt   |-> Add(Again(pv, q, db, M),
+               Add(IF Cardinality(M) > L THEN Unit(5) ELSE Zero,
+                   IF MixedWidth(M) THEN Unit(7) ELSE Zero))]
 
-EvalFacet(t, r) ==
+EvalFacet(t, r, db) ==
     LET q == QOf(r.args.q)
-        M == Match(DbOf(t), q)
+        M == Match(db, q)
         d == r.args.d
     IN
     [bad   |-> Fail("C17.FacetOK",   r.obs.err = ""    /\ FacetOK(M, d, r.obs.names))
                \cup
                Fail("C17.FacetOKfe", r.obs.fe_err = "" /\ FacetOK(M, d, r.obs.fe_names)),
-     drift |-> ~(r.obs.names = ImplFacet(TabsOf(t), q, d) /\ r.obs.fe_names = r.obs.names),
+     drift |-> ~(r.obs.names = ImplFacet(TabsAt(t, r), q, d) /\ r.obs.fe_names = r.obs.names) \/ Unbound(t, r, db),
      cnt   |-> IF M # {} THEN Unit(6) ELSE Zero]
 
-Eval(t, i) ==
+(* a change of the database is no claim of the property: it moves cur; the *)
+(* real table after the step must be the model's (else DRIFT)              *)
+EvalChange(t, r, db) ==
+    [bad |-> {}, drift |-> ~(r.obs.err = "" /\ ToSet(r.st.db) = HApply(db, r.ev, ToSet(r.args.xs))), cnt |-> Zero]
+
+CurAfter(t, i, db) == LET r == Rec(t, i) IN IF r.ev \in HMutations THEN HApply(db, r.ev, ToSet(r.args.xs)) ELSE db
+PrevAfter(t, i, db, pv) ==
+    LET r == Rec(t, i) IN
+    IF r.ev \in {"Find", "Pages"}
+    THEN LET q == QOf(r.args.q) IN [has |-> TRUE, q |-> q, n |-> Cardinality(db), M |-> Match(db, q), reop |-> FALSE]
+    ELSE IF r.ev = "Reopen" THEN [pv EXCEPT !.reop = TRUE] ELSE pv
+
+(* db: the model database BEFORE line i (searches do not change it) *)
+Eval(t, i, db, pv) ==
     LET r == Rec(t, i) IN
     CASE r.ev = "Scrub" -> EvalScrub(r)
-      [] r.ev = "Find"  -> EvalFind(t, r)
-      [] r.ev = "Pages" -> EvalPages(t, r)
-      [] r.ev = "Facet" -> EvalFacet(t, r)
+      [] r.ev = "Find"  -> EvalFind(t, r, db, pv)
+      [] r.ev = "Pages" -> EvalPages(t, r, db, pv)
+      [] r.ev = "Facet" -> EvalFacet(t, r, db)
+      [] r.ev \in HMutations /\ IsHist(t) -> EvalChange(t, r, db)
       [] OTHER -> [bad |-> {"C17.UnknownEvent"}, drift |-> FALSE, cnt |-> Zero]
 
 Report(t, i, ev, total, lines) ==
@@ -114,7 +157,9 @@ Report(t, i, ev, total, lines) ==
 TraceInit ==
     /\ tid \in {t \in 1..Len(Traces) : Len(Traces[t].steps) > 0}
     /\ l = 1
-    /\ LET ev == Eval(tid, 1) IN
+    /\ cur = CurAfter(tid, 1, DbOf(tid))
+    /\ prev = PrevAfter(tid, 1, DbOf(tid), NoPrev)
+    /\ LET ev == Eval(tid, 1, DbOf(tid), NoPrev) IN
        /\ bad = ev.bad /\ drift = ev.drift /\ cnt = ev.cnt
        /\ nt = IF ev.cnt # Zero THEN <<1>> ELSE <<>>
        /\ Report(tid, 1, ev, cnt, nt)
@@ -123,7 +168,9 @@ TraceNext ==
     /\ l < Len(Traces[tid].steps)
     /\ l' = l + 1
     /\ UNCHANGED tid
-    /\ LET ev == Eval(tid, l + 1) IN
+    /\ cur' = CurAfter(tid, l + 1, cur)
+    /\ prev' = PrevAfter(tid, l + 1, cur, prev)
+    /\ LET ev == Eval(tid, l + 1, cur, prev) IN
        /\ bad' = ev.bad /\ drift' = ev.drift /\ cnt' = Add(cnt, ev.cnt)
        /\ nt' = IF ev.cnt # Zero THEN Append(nt, l + 1) ELSE nt
        /\ Report(tid, l + 1, ev, cnt', nt')
